@@ -38,9 +38,9 @@ def exec_affine(case, tagroot="affine"):
     axis, gs = case["axis"], case["group_size"]
     q = cut(quantize_weight, x, qtype, axis, gs)
     tag = f"{tagroot}/{qtype.name}"
-    out.klass = [f"group-{n}" for n in set(names)] + [f"axis{axis}", f"rank{x.ndim}", "grouped" if gs else "per-axis", case["dtype"], "layout-" + case.get("layout", ["contig"])[0]]
+    out.klass = [f"group-{n}" for n in set(names)] + [f"axis{axis}", f"rank{x.ndim}", "grouped" if gs else "per-axis", case["dtype"], "layout-" + case.get("mem", ["contig"])[0]]
     out.nontrivial = any(n not in STRADDLING for n in names) and any(n in STRADDLING for n in names)
-    out.fingerprint = [case["dtype"], case["qtype"], axis, case["shape"], gs, case.get("layout", ["contig"])[0], [names[i] for i in range(min(ng, 8))]]
+    out.fingerprint = [case["dtype"], case["qtype"], axis, case["shape"], gs, case.get("mem", ["contig"])[0], [names[i] for i in range(min(ng, 8))]]
     if isinstance(q, Raised):
         return out.fail(f"{tag}/raises:{q.type}", q.text)
     if not isinstance(q, QBitsTensor) or tuple(q.shape) != tuple(x.shape) or q.dtype != dtype:
